@@ -100,6 +100,8 @@ class Observer:
         self.viol = []
         self.feats = set()
         self.pending = None
+        self.hist = []
+        self.shadow = None
 
     def _args(self, run):
         for f in reversed(run.frames):
@@ -110,8 +112,21 @@ class Observer:
         return {}
 
     def pre(self, interp, run, op, path):
+        if op["op"] in ("ctx", "call"):
+            # history shadow (open loop): the bindings that the ACCEPTED checks of this block imply, see post()
+            certain = op["op"] == "ctx" or all(a is None for _, a in self.scn["fns"][op["fn"]]["params"])
+            self.hist.append({"ctx": model.Ctx(args={}), "certain": certain})
+            return
         if op["op"] != "arr":
             return
+        self.shadow = None
+        if run.frames and self.hist and self.hist[-1]["certain"]:
+            sctx = self.hist[-1]["ctx"].copy()
+            sctx.args = self._args(run)
+            try:
+                self.shadow = model.match_array(self.scn["anns"][op["ann"]], op["val"], sctx)
+            except Exception:
+                self.hist[-1]["certain"] = False
         with seams.quiet():
             snap = ctxsim.snapshot()
             spec = self.scn["anns"][op["ann"]]
@@ -129,6 +144,10 @@ class Observer:
         self.pending = (snap, outs, post, bool(run.frames))
 
     def post(self, interp, run, op, path, out):
+        if op["op"] in ("ctx", "call"):
+            if self.hist:
+                self.hist.pop()
+            return
         if op["op"] != "arr" or self.pending is None:
             return
         snap0, outs, post, in_ctx = self.pending
@@ -136,6 +155,28 @@ class Observer:
         spec = self.scn["anns"][op["ann"]]
         got = "accept" if out is True else "reject" if out is False else (
             "AnnotationError" if out.get("exc") == "AnnotationError" else "exc")
+        if in_ctx and self.hist:
+            top = self.hist[-1]
+            if self.shadow is None:
+                if out is True:
+                    top["certain"] = False
+            else:
+                s_outs, s_post = self.shadow
+                if got in outs and got not in s_outs and top["certain"] and len(self.viol) < 3:
+                    self.viol.append(violation(PID, "history-model", {
+                        "path": path, "annotation": f"{spec['dtype']}[{spec['atype']}, {spec['dims']!r}]", "value": op["val"],
+                        "what": "the verdict fits the bindings observed just before the check, but not the bindings that the accepted "
+                                "checks of this block imply: an earlier operation of the block lost, added or changed a binding",
+                        "bindings_observed_before": snap0.get("top"),
+                        "bindings_implied_by_history": {"axes": top["ctx"].axes, "variadics": top["ctx"].variadics},
+                        "history_model_allows": sorted(s_outs), "implementation": out},
+                        sig={"oracle": "history-model", "got": got, "allowed": "+".join(sorted(s_outs))}))
+                    top["certain"] = False
+                elif out is True and s_outs == {"accept"} and s_post is not None:
+                    top["ctx"] = s_post
+                elif out is True or got not in s_outs:
+                    top["certain"] = False
+            self.stats.inc("history_shadow_judged" if self.shadow is not None else "history_shadow_uncertain")
         self.stats.inc("evaluations")
         self.stats.inc("outcome:" + got)
         cls = "".join({"named": "n", "fixed": "f", "sym": "s", "anon": "_", "var": "*", "anonvar": "."}[t["kind"]] +
